@@ -320,6 +320,11 @@ class Item(object):
             d["children"] = [c.tree() for c in self.children]
         elif self.kind == 'opaque':
             d["cls"] = self.sym.cls.__module__ + '.' + self.sym.cls.__qualname__
+            rv = getattr(self.sym, 'read_version', None)
+            if rv is not None:
+                # the version the enclosing decoder hands to the nested read (a message decodes
+                # its batch items under the version its header announces, not the caller's)
+                d["version"] = getattr(rv, 'name', str(rv))
         elif self.kind == 'raw':
             pass
         else:
